@@ -1019,6 +1019,10 @@ func (run *rRun) crashEnum() *core.Violation {
 		}
 		if opi >= 0 && opi < len(c.Ops) {
 			at["op"] = c.Ops[opi].Kind
+			// conflict: the in-flight Save starts at an index the log already holds (it replaces entries in place)
+			if c.Ops[opi].Kind == "save" && len(c.Ops[opi].Terms) > 0 {
+				at["conflict"] = fmt.Sprint(c.Ops[opi].First <= uint64(len(pre.ents)))
+			}
 		}
 		fail := func(v *core.Violation) *core.Violation {
 			v.Attrs = mergeAttrs(v.Attrs, at)
